@@ -47,4 +47,13 @@ def dispatch(rep):
     if kind == "parser-reset":
         from native import bounded_round3
         return _search([bounded_round3.parser_reset_check], seeds=(0,))
+    if kind == "parser-declare":
+        from native import bounded_round3
+        return _search([bounded_round3.declarations_check], seeds=(0,))
+    if kind == "factory-registration":
+        from native import bounded_round3
+        return _search([bounded_round3.registration_check], seeds=(0,))
+    if kind == "model-plural":
+        from native import bounded_round3
+        return _search([bounded_round3.plural_model_check], seeds=(0,))
     return False, {"mode": "no native replay handler for kind %r" % kind}
